@@ -25,7 +25,7 @@ failed=$(grep -E '^test result:' $out/suite_with.log | sed -E 's/.* ([0-9]+) fai
 failing=$(grep -E '^test .* FAILED$' $out/suite_with.log | awk '{print $2}' | sort -u | paste -sd' ')
 demo_name=$(basename $demo_path .rs)
 other_fail=$(grep -E '^test .* FAILED$' $out/suite_with.log | awk '{print $2}' | sort -u | grep -v -E 'test_leaf_setting_with_index_ffi' | while read t; do grep -q "fn ${t##*::}" $demo_path || echo $t; done | paste -sd' ')
-compile_err=$(grep -c -E '^error(\[|:)' $out/suite_with.log)
+compile_err=$(grep -c -E 'could not compile|^error\[E' $out/suite_with.log)
 echo "$prop: demo=$demo_path with_patch_rc=$rc_with without_patch_rc=$rc_without" | tee $out/confirmation.txt
 echo "$prop: suite: $passed passed, $failed failed  failing tests: $failing  (not from the demonstration: '${other_fail}')  compile errors: $compile_err" | tee -a $out/confirmation.txt
 if [ $rc_without -ne 0 ] || [ $rc_with -eq 0 ] || [ -n "$other_fail" ] || [ "$compile_err" != 0 ]; then echo "NOT CONFIRMED"; exit 1; fi
